@@ -291,3 +291,164 @@ Proof.
   - intros pdu n st' rs A. rewrite <- E. eapply att_input_length; eauto.
   - intros n st' rs A. rewrite <- E. eapply att_output_length; eauto.
 Qed.
+
+(* ------------------------------------------------------------------ the monitor accepts every trace of the model *)
+From BT Require Import AttSrv.AttSrvNotifSpec AttSrv.AttSrvSpecC08 AttSrv.AttSrvNotifObs.
+
+Lemma bytes_eqb_refl l : bytes_eqb l l = true.
+Proof. induction l as [|x t IH]; cbn [bytes_eqb]; auto. rewrite N.eqb_refl, IH. reflexivity. Qed.
+
+(* simulation invariant: the observer knows the client MTU of every connection *)
+Definition sim08 (st : srv_state) (m : obs) : Prop :=
+  length (ob_conns m) = length (conns st)
+  /\ forall cid k, get_conn st cid = Some k -> default_att_mtu <= client_mtu k /\ o_mtu (oc_at m cid) = client_mtu k.
+
+Lemma sim08_init c : sim08 (srv_init c) (obs_init c).
+Proof.
+  split; [unfold obs_init, srv_init; cbn [ob_conns conns]; rewrite !repeat_length; reflexivity|].
+  intros cid k G. unfold get_conn, srv_init in G. cbn [conns] in G.
+  assert (Hc : (cid < n_conns)%nat) by (apply nth_error_Some in G || (apply nth_error_lt in G; rewrite repeat_length in G; exact G)).
+  apply nth_error_In in G. apply repeat_spec in G. subst k. cbn [init_conn client_mtu]. split; [lia|].
+  unfold oc_at, obs_init. cbn [ob_conns]. rewrite repeat_nth by exact Hc. reflexivity.
+Qed.
+
+Lemma att_input_success c st cid pdu n st' rs :
+  att_input c st cid pdu n = Some (st', rs) ->
+  exists k op, get_conn st cid = Some k /\ (len pdu =? 0) = false /\ default_att_mtu <= N.min n (negotiated_mtu c k) /\ rd pdu 0 = Some op.
+Proof.
+  unfold att_input. destruct (get_conn st cid) as [k|]; [|discriminate].
+  destruct (len pdu =? 0) eqn:L; [discriminate|].
+  destruct (N.min n (negotiated_mtu c k) <? default_att_mtu) eqn:M; [discriminate|].
+  destruct (rd pdu 0) as [op|]; [|discriminate]. intros _. apply N.ltb_ge in M. eauto 8.
+Qed.
+
+Lemma eff_size_eq c m cid k n : o_mtu (oc_at m cid) = client_mtu k -> eff_size c (oc_at m cid) n = N.min n (negotiated_mtu c k).
+Proof. intros H. unfold eff_size, neg_mtu, negotiated_mtu. rewrite H. reflexivity. Qed.
+
+(* the answer of the model to an Exchange MTU Request *)
+Lemma att_input_exchange_answer c st cid rest n st' rs k :
+  get_conn st cid = Some k -> att_input c st cid (2 :: rest) n = Some (st', rs) ->
+  match rest with
+  | [lo; hi] => if default_att_mtu <=? lo + 256 * hi then rs = 3 :: le16 (max_mtu c) else rs = [1; 2; 0; 0; 4]
+  | _ => rs = [1; 2; 0; 0; 4]
+  end.
+Proof.
+  intros G A. destruct (att_input_success _ _ _ _ _ _ _ A) as (k0 & op & G0 & L & M & Hop). rewrite G in G0. inv G0.
+  change (rd (2 :: rest) 0) with (Some 2) in Hop. clear Hop.
+  rewrite (att_input_opcode2 c st cid (2 :: rest) n k0 G eq_refl M) in A.
+  destruct (handle_exchange_mtu _ _ _ _ _ _) as [[s1 [b1 mm]]|] eqn:HE; [|discriminate].
+  assert (Inv : (len (2 :: rest) <> 3 \/ exists v, rd16 (2 :: rest) 1 = Some v /\ v < default_att_mtu) -> rs = [1; 2; 0; 0; 4]).
+  { intros Hinv. assert (H5 : 5 <= N.min n (negotiated_mtu c k0)) by (unfold default_att_mtu in M; lia).
+    destruct (exchange_mtu_invalid c st cid (2 :: rest) _ _ _ _ H5 eq_refl HE Hinv) as (_ & S5 & T5).
+    cbn [fst snd] in S5, T5. subst mm. destruct (5 <=? len b1); [|discriminate]. inv A. exact T5. }
+  destruct rest as [|lo [|hi [|x t]]]; try (apply Inv; left; unfold len; cbn [length]; lia).
+  destruct (default_att_mtu <=? lo + 256 * hi) eqn:V.
+  - apply N.leb_le in V.
+    destruct (exchange_mtu_valid c st cid lo hi (repeat fill_byte (N.to_nat n)) (N.min n (negotiated_mtu c k0)) k0) as (b' & HV & T3 & _); auto.
+    { rewrite len_repeat. unfold default_att_mtu in M. lia. }
+    rewrite HV in HE. inv HE. destruct (3 <=? len b1); [|discriminate]. inv A. exact T3.
+  - apply Inv. right. exists (lo + 256 * hi). split; [reflexivity|]. apply N.leb_gt. exact V.
+Qed.
+
+Lemma check08_core_ok c st m o :
+  sim08 st m -> snd (srv_step c st o) <> OFault -> check08_core c m o (snd (srv_step c st o)) = None.
+Proof.
+  intros [SL S] NF. destruct o as [cid pdu n|cid n|cid e p|cid|bu kd g|g|g data]; cbn [srv_step] in *.
+  - destruct (att_input c st cid pdu n) as [[st' rs]|] eqn:A; cbn [snd] in *; [|contradiction].
+    destruct (att_input_success _ _ _ _ _ _ _ A) as (k & op & G & L & M & Hop).
+    destruct (S _ _ G) as (Mk & Ek). cbn [check08_core]. rewrite L. cbn [orb].
+    replace (n <? default_att_mtu) with false by (symmetry; apply N.ltb_ge; lia).
+    rewrite (eff_size_eq c m cid k n Ek).
+    replace (N.min n (negotiated_mtu c k) <? len rs) with false
+      by (symmetry; apply N.ltb_ge; eapply att_input_length; eauto).
+    destruct pdu as [|a rest]; [reflexivity|].
+    destruct (N.eq_dec a 2) as [->|Na].
+    + pose proof (att_input_exchange_answer _ _ _ _ _ _ _ _ G A) as X.
+      destruct rest as [|lo [|hi [|x t]]]; try (rewrite X; reflexivity).
+      destruct (default_att_mtu <=? lo + 256 * hi); rewrite X; rewrite bytes_eqb_refl; reflexivity.
+    + destruct a as [|p]; [reflexivity|]. repeat (destruct p as [p|p|]; try reflexivity). exfalso. apply Na. reflexivity.
+  - destruct (att_output c st cid n) as [[st' rs]|] eqn:A; cbn [snd] in *; [|contradiction].
+    assert (exists k, get_conn st cid = Some k) as (k & G).
+    { unfold att_output in A. destruct (get_conn st cid); [eauto|discriminate]. }
+    destruct (S _ _ G) as (Mk & Ek). cbn [check08_core]. rewrite (eff_size_eq c m cid k n Ek).
+    replace (N.min n (negotiated_mtu c k) <? len rs) with false
+      by (symmetry; apply N.ltb_ge; eapply att_output_length; eauto). reflexivity.
+  - destruct (get_conn st cid); reflexivity.
+  - reflexivity.
+  - destruct bu.
+    + destruct (by_uuid_available c kd g); [|reflexivity]. destruct (notify_by_uuid c st kd g) as [[s r]|]; cbn [snd] in *; [reflexivity|contradiction].
+    + destruct (by_value_available c g); [|reflexivity]. destruct (notify_by_value c st kd g) as [[s r]|]; cbn [snd] in *; [reflexivity|contradiction].
+  - destruct (has_var c g) as [[w h]|]; reflexivity.
+  - destruct (has_var c g) as [[[|] h]|]; reflexivity.
+Qed.
+
+(* the observer's MTU after one step is the specified one, when the output is the model's *)
+Lemma core_eff_mtu c st m o cid x :
+  (forall k, get_conn st cid = Some k -> True) ->
+  snd (srv_step c st o) <> OFault ->
+  fst (fst (core_eff c m o (snd (srv_step c st o)) cid x)) = mtu_after cid (fst (fst x)) o.
+Proof.
+  intros _ NF. destruct x as [[mtu enc] out]. cbn [fst].
+  destruct o as [i pdu n|i n|i e p|i|bu kd g|g|g data]; cbn [srv_step mtu_after] in *.
+  - destruct (att_input c st i pdu n) as [[st' rs]|] eqn:A; cbn [snd] in *; [|contradiction].
+    destruct (att_input_success _ _ _ _ _ _ _ A) as (k & op & G & L & M & Hop).
+    rewrite (core_in_classified c m i pdu n rs cid (mtu, enc, out)). rewrite L.
+    replace (n <? default_att_mtu) with false by (symmetry; apply N.ltb_ge; lia).
+    replace (default_att_mtu <=? n) with true by (symmetry; apply N.leb_le; lia).
+    rewrite Nat.eqb_sym. destruct (Nat.eqb cid i) eqn:Ei; cbn [negb orb andb fst snd]; [|reflexivity].
+    destruct (classify pdu) as [lo hi| |] eqn:Cl.
+    + apply classify_mtu in Cl. subst pdu. unfold valid_exchange. change (2 =? 2) with true. cbn [andb].
+      pose proof (att_input_exchange_answer _ _ _ _ _ _ _ _ G A) as X. cbv beta iota in X.
+      destruct (default_att_mtu <=? lo + 256 * hi); [|reflexivity]. rewrite X. reflexivity.
+    + destruct (valid_exchange pdu) eqn:V; [|reflexivity]. apply valid_exchange_inv in V.
+      destruct V as (lo & hi & -> & _). discriminate Cl.
+    + destruct (valid_exchange pdu) eqn:V; [|reflexivity]. apply valid_exchange_inv in V.
+      destruct V as (lo & hi & -> & _). discriminate Cl.
+  - destruct (att_output c st i n) as [[st' rs]|]; cbn [snd] in *; [|contradiction].
+    cbn [core_eff]. destruct rs as [|a [|b [|d t]]]; try reflexivity. destruct (_ && _); reflexivity.
+  - destruct (get_conn st i); cbn [snd core_eff]; destruct (Nat.eqb i cid) eqn:E; rewrite ?E; try reflexivity;
+      rewrite Nat.eqb_sym in E; rewrite E; reflexivity.
+  - cbn [snd core_eff]. destruct (Nat.eqb i cid); reflexivity.
+  - destruct bu.
+    + destruct (by_uuid_available c kd g); [|reflexivity]. destruct (notify_by_uuid c st kd g) as [[s r]|]; reflexivity.
+    + destruct (by_value_available c g); [|reflexivity]. destruct (notify_by_value c st kd g) as [[s r]|]; reflexivity.
+  - destruct (has_var c g) as [[w h]|]; reflexivity.
+  - destruct (has_var c g) as [[[|] h]|]; reflexivity.
+Qed.
+
+Lemma sim08_step c st m o :
+  default_att_mtu <= max_mtu c -> sim08 st m -> snd (srv_step c st o) <> OFault ->
+  sim08 (fst (srv_step c st o)) (advance c m o (snd (srv_step c st o))).
+Proof.
+  intros W [SL S] NF. destruct (advance_follows c m o (snd (srv_step c st o))) as (AL & AC).
+  split; [rewrite AL, srv_step_length; exact SL|].
+  intros cid k' G'.
+  assert (Hc : (cid < length (conns st))%nat).
+  { rewrite <- (srv_step_length c st o). eapply nth_error_lt; eauto. }
+  destruct (nth_error (conns st) cid) as [k|] eqn:G; [|apply nth_error_None in G; lia].
+  destruct (S _ _ G) as (Mk & Ek).
+  destruct (srv_step_mtu c st o cid k W G Mk) as (k1 & G1 & E1). rewrite G1 in G'. inv G'.
+  split; [rewrite E1; apply mtu_after_ge; exact Mk|].
+  assert (X : o_mtu (oc_at (advance c m o (snd (srv_step c st o))) cid)
+              = fst (fst (core (oc_at (advance c m o (snd (srv_step c st o))) cid)))) by reflexivity.
+  rewrite X, AC by (rewrite SL; exact Hc).
+  rewrite (core_eff_mtu c st m o cid _ (fun _ _ => I) NF). cbn [core fst]. rewrite Ek, E1. reflexivity.
+Qed.
+
+Theorem monitor08_core_accepts c : default_att_mtu <= max_mtu c -> forall ops st m pos,
+  sim08 st m -> no_fault (srv_run c st ops) -> monitor_from_of check08_core c m pos (srv_run c st ops) = None.
+Proof.
+  intros W. induction ops as [|o t IH]; intros st m pos S NF; cbn [srv_run monitor_from_of]; [reflexivity|].
+  pose proof (check08_core_ok c st m o S) as CK. pose proof (sim08_step c st m o W S) as ST.
+  destruct (srv_step c st o) as [st' r] eqn:E. cbn [fst snd] in *.
+  cbn [srv_run] in NF. rewrite E in NF. inversion NF as [|? ? NF1 NF2]; subst. cbn [snd] in NF1.
+  cbn [monitor_from_of]. unfold mstep_of. rewrite (CK NF1). apply IH; auto.
+Qed.
+
+Theorem monitor08_core_accepts_model c ops :
+  wf c -> no_fault (srv_run c (srv_init c) ops) -> monitor08_core c (srv_run c (srv_init c) ops) = None.
+Proof.
+  intros W NF. apply monitor08_core_accepts; auto; [|apply sim08_init].
+  unfold wf, wf_b in W. repeat (apply andb_true_iff in W; destruct W as [W ?]).
+  match goal with H : (default_att_mtu <=? max_mtu c) = true |- _ => apply N.leb_le in H; exact H end.
+Qed.
